@@ -460,14 +460,21 @@ func ruleSendSites(c *Ctx, dv *dev, pf *parserFacts, shapes map[*ssa.Function]*c
 			// kind
 			kind := sh.kindConst
 			if sh.kindParam >= 0 {
-				k, isConst := args[sh.kindParam].(*ssa.Const)
-				if !isConst || k.Value == nil || k.Value.Kind() != constant.Int {
+				// a constant, or the parameter of a sending helper that every call site binds to a constant
+				kinds, okK := constKinds(c.P, args[sh.kindParam], 0)
+				if !okK || len(kinds) == 0 {
 					c.Bad("R5.3", ckey+"/kind", cpos, "message kind is not a constant")
 					continue
 				}
-				kind = k.Int64()
-				if kind != midiNoteOn && kind != midiNoteOff {
-					c.Bad("R5.3", ckey+"/kind", cpos, fmt.Sprintf("message kind 0x%X is not NoteOn/NoteOff (low nibble must be 0)", kind))
+				badKind := false
+				for _, kk := range kinds {
+					kind = kk
+					if kk != midiNoteOn && kk != midiNoteOff {
+						c.Bad("R5.3", ckey+"/kind", cpos, fmt.Sprintf("message kind 0x%X is not NoteOn/NoteOff (low nibble must be 0)", kk))
+						badKind = true
+					}
+				}
+				if badKind {
 					continue
 				}
 			}
@@ -1154,4 +1161,50 @@ var configFieldBounds = map[string]rng{
 	"Key.Note": {0, 127}, "Key.ChannelOffset": {0, 15},
 	"Analog.CC": {0, 119}, "Analog.CCNeg": {0, 119}, "Analog.Note": {0, 127}, "Analog.NoteNeg": {0, 127},
 	"Analog.ChannelOffset": {0, 15}, "Analog.ChannelOffsetNeg": {0, 15},
+}
+
+// constKinds: the integer constants v can be: a constant, a phi of such, or a parameter that every static call site of its
+// function binds to such.
+func constKinds(p *Program, v ssa.Value, depth int) ([]int64, bool) {
+	if depth > 4 {
+		return nil, false
+	}
+	switch x := v.(type) {
+	case *ssa.Const:
+		if x.Value == nil || x.Value.Kind() != constant.Int {
+			return nil, false
+		}
+		return []int64{x.Int64()}, true
+	case *ssa.Convert:
+		return constKinds(p, x.X, depth+1)
+	case *ssa.Phi:
+		var out []int64
+		for _, e := range x.Edges {
+			ks, ok := constKinds(p, e, depth+1)
+			if !ok {
+				return nil, false
+			}
+			out = append(out, ks...)
+		}
+		return out, true
+	case *ssa.Parameter:
+		sites, ok := staticCallSites(p, x.Parent())
+		idx := paramIndex(x)
+		if !ok || idx < 0 {
+			return nil, false
+		}
+		var out []int64
+		for _, cs := range sites {
+			if idx >= len(cs.Common().Args) {
+				return nil, false
+			}
+			ks, ok := constKinds(p, cs.Common().Args[idx], depth+1)
+			if !ok {
+				return nil, false
+			}
+			out = append(out, ks...)
+		}
+		return out, len(out) > 0
+	}
+	return nil, false
 }
